@@ -3,6 +3,7 @@ mod hist;
 mod lang;
 mod mk;
 mod reg;
+mod serde_ctx;
 mod model;
 mod tagjson;
 mod types;
@@ -689,6 +690,36 @@ fn gen_types(a: &HashMap<String, String>) {
     println!("{}", serde_json::to_string(&json!({"events": n})).unwrap());
 }
 
+fn gen_serde(a: &HashMap<String, String>) {
+    let seed: u64 = a.get("seed").and_then(|s| s.parse().ok()).unwrap_or(1);
+    let n: usize = a.get("n").and_then(|s| s.parse().ok()).unwrap_or(300);
+    let out = a.get("out").cloned().unwrap_or_else(|| ".".into());
+    let mut r = rng_from(seed);
+    quiet_panics();
+    let specs = vec![
+        rich_scheme(true, true, false, &[("set", Ty::Int), ("set", Ty::Bytes), ("always", Ty::Ip)]),
+        rich_scheme(true, true, false, &[]),
+        SchemeSpec { fields: vec![], funcs: vec![], lists: vec![Ty::Int], listkinds: vec!["set".into()], nne: true },
+    ];
+    let schemes: Vec<wirefilter::Scheme> = specs.iter().map(mk::build_scheme).collect();
+    write_ndjson(&format!("{out}/schemes.ndjson"), &specs);
+    write_ndjson::<Value>(&format!("{out}/ctxs.ndjson"), &[]);
+    let mut tw = BufWriter::new(File::create(format!("{out}/trace.ndjson")).unwrap());
+    let mut nev = 0u64;
+    while (nev as usize) < n {
+        let mut evs = Vec::new();
+        serde_ctx::gen_serde_events(&mut r, &specs, &schemes, nev, &mut evs);
+        for (i, mut e) in evs.into_iter().enumerate() {
+            e["id"] = json!(nev + i as u64);
+            serde_json::to_writer(&mut tw, &e).unwrap();
+            tw.write_all(b"\n").unwrap();
+        }
+        nev += 4;
+    }
+    tw.flush().unwrap();
+    println!("{}", serde_json::to_string(&json!({"events": nev})).unwrap());
+}
+
 fn main() {
     let args: Vec<String> = std::env::args().collect();
     if args.len() < 2 {
@@ -710,6 +741,10 @@ fn main() {
         "replay-hist" => replay_hist_cmd(&a),
         "replay-reg" => replay_reg_cmd(&a),
         "replay-types" => replay_types_cmd(&a),
+        "gen-serde" => {
+            gen_serde(&a);
+            0
+        }
         "gen-types" => {
             gen_types(&a);
             0
